@@ -35,7 +35,6 @@ def showErrKey : ErrKey → String
 def readerAuthOp : List String → Option String
   | "resp.outcome" :: t => (parseFacts t).map fun f =>
       let o := handleResponse f
-      if o.panics then "panic" else
       s!"issuer={showStatus o.issuer} device={showStatus o.device} errors={csv ((o.errors.map showErrKey).mergeSort (· ≤ ·))} data={if o.hasData then "t" else "f"}"
   | "spec.c03" :: issuer :: errsEmpty :: t => do
       let f ← parseFacts t; let s ← parseStatus issuer
